@@ -297,36 +297,41 @@ func (t *tr) methodValue(c *ast.CallExpr, g *fn, en env) string {
 }
 
 // pattern is the binder for a result tuple: a name, or a destructuring pattern '(a, b, c)
-// putUint64Idiom recognises binary.LittleEndian.PutUint64(x[:], e) for a local array x ([N]byte) where
-// `binary` is the file's import of encoding/binary and is not shadowed: the write goes to x itself.
-func (t *tr) putUint64Idiom(c *ast.CallExpr, en env) (string, ast.Expr, bool) {
+// putUintIdiom recognises binary.LittleEndian.PutUint64(x[:], e) and PutUint32(x[:], e) for a local array x
+// ([N]byte) where `binary` is the file's import of encoding/binary and is not shadowed: the write goes to x
+// itself. The third result is the operand type the call requires (U64 or U32).
+func (t *tr) putUintIdiom(c *ast.CallExpr, en env) (string, ast.Expr, ity, bool) {
 	sel, ok := c.Fun.(*ast.SelectorExpr)
-	if !ok || sel.Sel.Name != "PutUint64" || len(c.Args) != 2 {
-		return "", nil, false
+	if !ok || (sel.Sel.Name != "PutUint64" && sel.Sel.Name != "PutUint32") || len(c.Args) != 2 {
+		return "", nil, "", false
+	}
+	var want ity = "U64"
+	if sel.Sel.Name == "PutUint32" {
+		want = "U32"
 	}
 	le, ok := sel.X.(*ast.SelectorExpr)
 	if !ok || le.Sel.Name != "LittleEndian" {
-		return "", nil, false
+		return "", nil, "", false
 	}
 	pkg, ok := le.X.(*ast.Ident)
 	if !ok || t.cur.imports[pkg.Name] != "encoding/binary" {
-		return "", nil, false
+		return "", nil, "", false
 	}
 	if _, shadow := en[pkg.Name]; shadow {
 		fail(t.pos(c), "%s is shadowed by a local variable", pkg.Name)
 	}
 	sl, ok := c.Args[0].(*ast.SliceExpr)
 	if !ok || sl.Low != nil || sl.High != nil || sl.Max != nil {
-		fail(t.pos(c), "PutUint64 on something other than x[:]")
+		fail(t.pos(c), "PutUintNN on something other than x[:]")
 	}
 	n, ok := t.lname(sl.X)
 	if !ok || en[n] != "ARR_U8" {
-		fail(t.pos(c), "PutUint64 on something other than a local byte array")
+		fail(t.pos(c), "PutUintNN on something other than a local byte array")
 	}
-	if t.typeOf(c.Args[1], en) != "U64" {
-		fail(t.pos(c), "PutUint64 of a value that is not a uint64")
+	if t.typeOf(c.Args[1], en) != want {
+		fail(t.pos(c), "%s of a value of another type", sel.Sel.Name)
 	}
-	return n, c.Args[1], true
+	return n, c.Args[1], want, true
 }
 
 func pattern(names []string) string {
@@ -952,9 +957,12 @@ func (t *tr) stmts(list []ast.Stmt, en env, depth int, k func(env) string) strin
 			return next(en)
 		}
 		if c, ok := v.X.(*ast.CallExpr); ok {
-			if arr, val, ok := t.putUint64Idiom(c, en); ok {
-				a := t.tmp()
-				return fmt.Sprintf("(%s <- (%s <- %s ;; go_put_le64 %s %s) ;;\n %s)", cv(arr), a, t.exprZ(val, en, "U64"), cv(arr), a, next(en))
+			if arr, val, want, ok := t.putUintIdiom(c, en); ok {
+				a, put := t.tmp(), "go_put_le64"
+				if want == "U32" {
+					put = "go_put_le32"
+				}
+				return fmt.Sprintf("(%s <- (%s <- %s ;; %s %s %s) ;;\n %s)", cv(arr), a, t.exprZ(val, en, want), put, cv(arr), a, next(en))
 			}
 		}
 		if c, ok := v.X.(*ast.CallExpr); ok {
